@@ -209,5 +209,25 @@ PROPS["C11"] = {
     "assumptions": ["programs write global names of their own and only read shared globals (as the property states)"],
 }
 
+PROPS["C07"] = {
+    "runner": "C07", "timeout": 3000, "vm_k": 8,
+    "replay_hint": "exact cases: evaluate the printed program with lisp.EVAL under context.WithCancel, (cancel!) being a builtin that calls the cancel function (go/h/env.go), compare result and (trace! ..) order; "
+                   "timed cases: evaluate the printed source under the printed deadline / outside cancel and measure the time between the end of the context and the return of lisp.EVAL",
+    "technique": "Coq evaluator model with the context poll at the top of every loop iteration (eval_c shares every other line, eval_step, with the context-free evaluator) and a cancelled flag set by the harness builtin (cancel!); "
+                 "theorems: every evaluation started after cancellation returns the timeout error at once whatever the form, bodies / catch handlers / finally bodies cannot start anything, whole-program instances for arbitrary remaining forms; "
+                 "correspondence on result and ordered trace for generated and self-cancelling never-ending programs; wall-clock bound measured on the implementation (direct oracle)",
+    "level_text": "Proved (model): once the context is cancelled, every evaluation that is started — a loop iteration, a recursive call, a macro body, a handler — returns the timeout error at once and leaves the state untouched, with one unit of fuel, "
+                  "i.e. independently of how long the form would run; a live context changes nothing else (same eval_step); the pending frames cannot start work: a do/function/finally body stops at its first form, a catch handler is entered (variable bound) "
+                  "but ends at its first form without tracing, a finally body runs nothing and keeps the outcome; for ARBITRARY remaining forms (do (cancel!) REST), a try whose body cancels (handler and finally given arbitrary forms) and the "
+                  "one-builtin-application leftover are computed symbolically. Not proved (partial): the general induction 'work after cancellation is bounded by the number of pending frames' over all evaluation contexts, and anything about wall-clock time, "
+                  "timers, context-aware sleep and future deref, the 80% budget split of try — those live in the Go runtime and are MEASURED: 13 never-ending / blocking shapes (tail, non-tail, tree and macro recursion, sleep, deref of sleeping and looping futures, "
+                  "an atom read behind a future holding it, handlers and finally bodies that loop or sleep again, nested try) under a deadline or an outside cancel at a random instant must return within 400 ms (observed maximum on the unchanged tree: tens of ms), "
+                  "with a timeout error where nothing can catch it, the handler's trace where the 80% budget must let it run, and futures must stop with their creator. "
+                  "Tie: 500/12000 generated programs with (cancel!) at random places and self-cancelling never-ending programs: result and ordered trace equal the model's (this is what pins the poll to EVERY iteration: a poll every k-th turn, or only on some paths, shifts the trace).",
+    "level_note": "trusted: Coq kernel+VM, extraction, OCaml driver, Go harness (cancel! builtin, timers, watchdogs); wall-clock measurements depend on machine load (bound 400 ms vs 3 s watchdog); sleep, Future.Deref and context derivation are not modelled in Coq",
+    "trusted": ["hand-written evaluator model (as C01/C03) + the poll; modelled rather than verified: context.Context as one boolean", "wall-clock oracle: Go timers and scheduler"],
+    "assumptions": ["builtins are short (small data), as the property states", "the context is cancelled from inside the program in the exact cases (the instant is then a program point), from a timer in the timed cases"],
+}
+
 NOT_CLAIMED = {p: "machinery for this property is not built yet in this revision (see DESIGN.md §9 order of work)" for p in
                ["C%02d" % i for i in range(1, 21)] if p not in PROPS}
